@@ -353,3 +353,7 @@ def run(ctx, res):
     from . import c06
     from .. import leximpl
     c06.rule_escapes(ctx, res, leximpl.LexerSource(ctx))
+    # a header comment that is passed through without its line end swallows
+    # the first code tokens of the program into the comment (shared with C19)
+    from . import c19
+    c19.rule_header(ctx, res, mm)
